@@ -393,6 +393,42 @@ template<typename HB> static bool run_kind_inline(const std::string& keycat, int
 	return false;
 }
 
+// translator validation: the REAL leaf functions of the growth decision / probe sequence (same lines as ocaml/driver.ml `leaf`)
+static void leaf(std::istringstream& is)
+{
+	typedef internal::HashSetBucketItemTraits<HashSetItemTraits<uint64_t, kit::MM>> BIT;
+	std::string what, k; is >> what;
+	if (what == "cap")
+	{
+		ull mc, l; is >> k >> mc >> l; size_t bc = size_t(1) << l; ull cap = 0, sh = 0;
+		if (k == "B") { cap = internal::HashBucketBase::CalcCapacity(bc, mc); sh = internal::HashBucketBase::GetBucketCountShift(bc, mc); }
+		else if (k == "O2")
+		{
+			if (mc == 1) { cap = HashBucketOpen2N2<1>::CalcCapacity(bc, mc); sh = HashBucketOpen2N2<1>::GetBucketCountShift(bc, mc); }
+			else if (mc == 2) { cap = HashBucketOpen2N2<2>::CalcCapacity(bc, mc); sh = HashBucketOpen2N2<2>::GetBucketCountShift(bc, mc); }
+			else { cap = HashBucketOpen2N2<3>::CalcCapacity(bc, mc); sh = HashBucketOpen2N2<3>::GetBucketCountShift(bc, mc); }
+		}
+		else { cap = HashBucketOpen8::CalcCapacity(bc, mc); sh = HashBucketOpen8::GetBucketCountShift(bc, mc); }
+		printf("%llu %llu\n", cap, sh);
+	}
+	else if (what == "idx")
+	{
+		ull hc, l, i, p; is >> k >> hc >> l >> i >> p; size_t bc = size_t(1) << l;
+		size_t st = internal::BucketBase::GetStartBucketIndex(hc, bc), nx;
+		if (k == "B") nx = internal::BucketBase::GetNextBucketIndex(i, hc, bc, p);
+		else if (k == "O2") nx = internal::BucketOpen2N2<BIT, 3, false>::GetNextBucketIndex(i, hc, bc, p);
+		else nx = internal::BucketOpen8<BIT>::GetNextBucketIndex(i, hc, bc, p);
+		printf("%llu %llu\n", ull(st), ull(nx));
+	}
+	else if (what == "cnt")
+	{	// HashSetBuckets::GetCount of a real bucket array created with that log size
+		ull l; is >> l; typedef internal::HashSetBuckets<internal::BucketOpen2N2<BIT, 3, false>> Bk; kit::MM mm(1);
+		Bk* b = Bk::Create(mm, size_t(l), nullptr); printf("%llu\n", ull(b->GetCount())); b->Destroy(mm, true);
+	}
+	else puts("?leaf");
+	fflush(stdout);
+}
+
 int main(int argc, char** argv)
 {
 	bool sched = argc > 1 && std::string(argv[1]) == "sched";
@@ -400,6 +436,7 @@ int main(int argc, char** argv)
 	while (std::getline(std::cin, line))
 	{
 		std::istringstream is(line); std::string kind, keycat, sm, tok; int dist; size_t ls;
+		if (line.compare(0, 5, "leaf ") == 0) { is >> kind; leaf(is); continue; }
 		is >> kind >> keycat >> dist >> ls >> sm >> tok;   // tok = "|"
 		std::vector<std::string> ops;
 		while (is >> tok && tok != "|") ops.push_back(tok);
